@@ -11,6 +11,7 @@ package main
 //   R4       loops without a post statement that may not make progress
 
 import (
+	"encoding/json"
 	"fmt"
 	"go/ast"
 	"go/token"
@@ -678,6 +679,26 @@ func checkBounds(res *Result) {
 	defer os.RemoveAll(cache)
 	pkgs := []string{modPath + "/pub", modPath + "/streams/values/..."}
 	args := []string{"build", "-gcflags=" + modPath + "/pub=-d=ssa/check_bce/debug=1", "-gcflags=" + modPath + "/streams/values/...=-d=ssa/check_bce/debug=1"}
+	// newly extracted helpers are judged where they are called: the compiler is shown the sources
+	// with those helpers expanded in place (E0), through -overlay
+	if ov := compilerOverlay(); len(ov) > 0 {
+		rep := map[string]string{}
+		i := 0
+		for name, content := range ov {
+			i++
+			tmp := filepath.Join(cache, fmt.Sprintf("overlay_%d.go", i))
+			if err := os.WriteFile(tmp, content, 0644); err != nil {
+				continue
+			}
+			rep[name] = tmp
+		}
+		if js, err := json.Marshal(map[string]interface{}{"Replace": rep}); err == nil {
+			of := filepath.Join(cache, "overlay.json")
+			if os.WriteFile(of, js, 0644) == nil {
+				args = append(args, "-overlay="+of)
+			}
+		}
+	}
 	args = append(args, pkgs...)
 	cmd := exec.Command("go", args...)
 	cmd.Dir = repoDir
